@@ -6,7 +6,8 @@ site address and the `http_port` / `https_port` options reach `Server.Listen`,
 `httpcaddyfile.listenersForServerBlockAddress` and the parts of `serversFromPairings`
 that decide them, for site blocks with one address each and no `bind` / `tls` directive.
 The result is a `Config` of the phase-1 model, so the phase-1 theorems compose with it.
-NOT modelled: the adapter's prediction whether to add a TLS connection policy
+NOT modelled: `buildTLSApp`'s construction and consolidation of automation policies (taken as given,
+see `adaptWith`), the adapter's prediction whether to add a TLS connection policy
 (`addressQualifiesForTLS` / `autoHTTPSWillAddConnPolicy`), route order, `prefer_wildcard`.
 -/
 import CaddyModel.C11.Spec
@@ -18,6 +19,7 @@ structure Site where
   scheme : Nat
   name : Name
   port : Nat
+  tlsInternal : Bool := false   -- the block has `tls internal`
 deriving DecidableEq, Repr
 
 structure CF where
@@ -43,9 +45,11 @@ def conventionBad (cf : CF) (s : Site) : Bool :=
   (decide (s.scheme = 2) && decide (sitePort cf s = cf.httpPort))
 
 /-- "ambiguous site definition": two blocks with the same key text -/
+def sameKey (s t : Site) : Bool := decide (s.scheme = t.scheme) && decide (s.name = t.name) && decide (s.port = t.port)
+
 def dupSite : List Site → Bool
   | [] => false
-  | s :: rest => rest.contains s || dupSite rest
+  | s :: rest => rest.any (sameKey s) || dupSite rest
 
 /-- `detectConflictingSchemes`: the site makes its server an HTTP server (`http://`, the HTTP
     port written out, or a bare `:port` that is neither) -/
@@ -84,8 +88,15 @@ def cfServer (cf : CF) (p : Nat) : Server :=
 
 /-- the HTTP app the adapter produces, as a configuration of the phase-1 model (`none` = the
     adapter rejects the Caddyfile) -/
-def adapt (cf : CF) : Option Config :=
+def adaptWith (cf : CF) (pols : List Policy) : Option Config :=
   if cfErr cf then none
-  else some ⟨cf.hp, cf.sp, (cfPorts cf).map (cfServer cf), [], none⟩
+  else some ⟨cf.hp, cf.sp, (cfPorts cf).map (cfServer cf), pols, none⟩
+
+/-- the adapter's output when it emits no automation policy (no `tls` directive, no global
+    issuer option).  With `tls` directives `buildTLSApp` emits policies; its consolidation is not
+    modelled: `adaptWith cf pols` takes the emitted policies as they are (the harness carries
+    them on the line and re-checks them against the real adapter), and the theorems of
+    `CaddyfileProps.lean` hold for EVERY list of policies. -/
+def adapt (cf : CF) : Option Config := adaptWith cf []
 
 end CaddyModel.C11
